@@ -99,7 +99,9 @@ with concurrent.futures.ThreadPoolExecutor(max_workers=3) as ex:
                    ["-DUSE_SHIM", "-include", os.path.join(verif.VERIF, "harness", "sched", "verif_sched.hpp")], 1500)
     # free-running real threads under ThreadSanitizer (data races are outside the Coq model: run-time evidence)
     f2 = ex.submit(ck.build_cpp, "c04_tsan", ["harness/C04/ps5_harness.cpp"],
-                   ["-std=c++17", "-O1", "-g", "-fsanitize=thread", "-DTLX_HAVE_THREAD_SANITIZER=1"], REPO_SRCS, [], 1500)
+                   ["-std=c++17", "-O1", "-g", "-fsanitize=thread", "-DTLX_HAVE_THREAD_SANITIZER=1", "-DNDEBUG"], REPO_SRCS, [], 1500)
+    # -DNDEBUG on purpose: the library's assert()s read the atomics with seq_cst loads, which act as acquire operations and would
+    # hide a release-only / relaxed update from ThreadSanitizer; the ASan+UBSan builds keep the assertions
     exe, log = f1.result()
     exe_tsan, log_tsan = f2.result()
     exe_fe, log_fe = f3.result()
